@@ -22,6 +22,17 @@ Monitors
                  astype}, interleaved with queries: unit contents after every
                  step follow a numpy-only model of the history.
   matrix-product (P, cross monitor of C04, not deciding here).
+
+Input classes beyond the random histories
+  flatten-unit   flatten_to_unit(unit=k) with every explicit k from the class's
+                 unit rank up to the rank of the primary array (and
+                 flatten_to_aux()), on composites of rank >= 3, inside
+                 histories: the composite axes of the derived data are those
+                 of the primary data (seeded change C11-r3-2).
+  lift-scales    objects built from tiny (1e-6..1e-9), huge (1e6..1e9) and
+                 row-wise mixed projective lifts of the same geometric data;
+                 normalising queries (hyperboloid_coords, origin_to, distance,
+                 ...) between the steps (seeded change C11-r3-3).
 """
 import copy
 import os
@@ -44,7 +55,9 @@ RULE = ("histories = initial construction route x up to 6 operations from {copy,
         "(),(3,),(2,3),(1,3),(2,1,3), with read-only queries interleaved; non-trivial "
         "= at least one operation after construction on an object with auxiliary "
         "data; distinct = distinct (class, dimension, initial shape, multiset of "
-        "operations) signatures")
+        "operations) signatures; plus flatten_to_unit(unit=k) for every k from the unit "
+        "rank to the array rank inside such histories, and every construction route x "
+        "{tiny, huge, row-wise mixed} scale of the homogeneous representatives")
 ASSUMPTIONS = [
     "recomputation = type(obj)(obj.proj_data).aux_data, as the property states it",
     "a hyperbolic segment's ideal endpoints / a tangent vector's projected vector "
@@ -52,6 +65,13 @@ ASSUMPTIONS = [
     "c>0, relative residual <= 1e-9): other images are 'aux not comparable', and so "
     "is everything derived from them",
     "ConvexPolygon is excluded (constructor re-orders vertices)",
+    "flatten_to_unit(unit=k), k >= unit rank, is a flattening in the property's sense: "
+    "the result is the same class with composite shape (-1,) + the last k - unit_rank "
+    "composite axes, and its derived data has the same composite axes; flatten_to_aux() "
+    "is only driven on classes whose derived data has the rank of the primary data",
+    "a positive rescaling of a homogeneous representative (1e-9 .. 1e9 per row) does "
+    "not change the object: the base point of a tangent vector, the endpoints of a "
+    "segment and the vertices of a polygon are rescaled, never the tangent vector row",
     "comparison is projective per row (tangent vectors: equal-sign scalars); "
     "tolerance 1e-7/separation for segments, 1e3*eps(dtype) after astype",
     "copy.copy shares the arrays with its source by Python semantics: after a "
@@ -480,9 +500,49 @@ def setup(run):
 # histories
 
 HKINDS = ["H.Polygon", "H.Segment", "H.TangentVector", "P.Polygon"]
+LIFTS = ["tiny", "huge", "mixed"]
+
+
+def lift_scales(rng, shape, lift):
+    """positive factors, one per homogeneous row: the scale class of the
+    projective lift.  tiny 1e-6..1e-9, huge 1e6..1e9, mixed = each row
+    independently unit / tiny / huge.  The geometric data does not depend on
+    it; library code with an *absolute* threshold does (seeded change C11-r3-3:
+    |<p,p>| < 1e-12 taken for a null vector)."""
+    shape = tuple(shape) + (1,)
+    e = rng.uniform(6.0, 9.0, size=shape)
+    if lift == "tiny":
+        return 10.0 ** (-e)
+    if lift == "huge":
+        return 10.0 ** e
+    pick = rng.integers(0, 3, size=shape)
+    return np.where(pick == 0, 1.0, np.where(pick == 1, 10.0 ** (-e), 10.0 ** e))
+
+
+def rescale_raw(rng, kind, raw, lift):
+    """the same object from other representatives of its points: base point of
+    a tangent vector (the vector row carries a magnitude: untouched),
+    endpoints of a segment, vertices of a polygon."""
+    if not lift:
+        return raw
+    out = G.copy_raw(raw)
+    names = {"H.TangentVector": ["P"], "H.Segment": ["P", "Q"]}.get(kind, ["X"])
+    for k in names:
+        out[k] = out[k] * lift_scales(rng, out[k].shape[:-1], lift)
+    return out
+
+
+def draw_value(rng, kind, n, shape, nv=None):
+    """raw inputs of a further object entering the history (item value,
+    stacking / combining partner), in the case's scale class."""
+    raw = G.draw(rng, kind, n, shape, nv=nv)
+    return rescale_raw(rng, kind, raw, _state.get("lift"))
 OPS = ["copy", "deepcopy", "class-copy", "apply", "apply-composite", "apply-pairwise",
        "apply-nonform", "reshape", "flatten", "index", "setitem", "setitem-raw", "stack",
        "combine", "astype32", "astype64", "query"]
+# further operations, driven by the targeted workloads (not in the random draw
+# of wl_history, whose case stream stays what it was)
+EXTRA_OPS = ["flatten-unit", "flatten-aux", "query-normalising"]
 
 
 class Model:
@@ -524,6 +584,20 @@ def explicit_check(run, obj, model, step, opname):
     if not hist.judge(dev, tol, "history/primary/after:%s" % opname,
                       "after %s the primary data is not what the history gives" % opname, case):
         return False
+    # composite axes of the derived data are those of the primary data (numpy
+    # only; also for 'aux not comparable' objects): flatten_to_unit(unit=k)
+    # reshaping the two arrays by different rules (seeded change C11-r3-2)
+    aux = getattr(obj, "aux_data", None)
+    if aux is not None and getattr(obj, "aux_ndims", 0) > 0:
+        axes = tuple(np.shape(aux)[:max(0, np.ndim(aux) - obj.aux_ndims)])
+        if not hist.require(np.ndim(aux) >= obj.aux_ndims and axes == tuple(model.shape),
+                            "history/aux-composite-axes/%s/after:%s" % (model.kind, opname),
+                            "after %s the derived data has composite axes %r (array shape %r), "
+                            "the primary data %r (array shape %r)"
+                            % (opname, axes, np.shape(aux), tuple(model.shape),
+                               np.shape(obj.proj_data)), case):
+            _reported.add(obj)
+            return False
     _state["check"](obj, opname)
     if obj in _reported:
         return False
@@ -621,6 +695,10 @@ def do_queries(rng, obj, kind):
     from geometry_tools import hyperbolic as H
     with np.errstate(all="ignore"):
         q = int(rng.integers(0, 4))
+        if kind != "P.Polygon" and q == 0:
+            # normalises the object's own primary data in place (projectively
+            # harmless; the stored derived data must keep describing it)
+            obj.hyperboloid_coords()
         if kind in ("H.Polygon", "P.Polygon"):
             obj.get_vertices()
             e = obj.get_edges()
@@ -653,6 +731,61 @@ def do_queries(rng, obj, kind):
             obj.isometry_to(obj)
             obj.coords("klein")
             H.Point(obj.point).hyperboloid_coords()
+
+
+NORMALISING = {
+    "H.TangentVector": ["origin_to", "hyperboloid_coords", "isometry_to", "point_along",
+                        "coords:hyperboloid", "normalized+angle"],
+    "H.Segment": ["hyperboloid_coords", "endpoints:distance+origin_to", "coords:poincare",
+                  "ideal_endpoint_coords", "coords:hyperboloid", "geodesic"],
+    "H.Polygon": ["hyperboloid_coords", "vertices:origin_to+distance", "coords:poincare",
+                  "edges:ideal_endpoint_coords", "coords:hyperboloid"],
+    "P.Polygon": ["projective_coords", "affine_coords", "edges:get_end_pair"],
+}
+
+
+def normalising_query(obj, kind, which):
+    """one read-only query of the family that rescales / re-orthogonalises
+    stored arrays in place (utils.normalize writes into its argument).  The
+    write watch and the invariant judge; the result is discarded."""
+    names = NORMALISING[kind]
+    name = names[which % len(names)]
+    with np.errstate(all="ignore"):
+        if name == "origin_to":
+            obj.origin_to()
+        elif name == "hyperboloid_coords":
+            obj.hyperboloid_coords()
+        elif name == "isometry_to":
+            obj.isometry_to(obj)
+        elif name == "point_along":
+            obj.point_along(0.3)
+        elif name.startswith("coords:"):
+            obj.coords(name[7:])
+        elif name == "normalized+angle":
+            obj.angle(obj.normalized())
+        elif name == "endpoints:distance+origin_to":
+            a, b = obj.get_end_pair(as_points=True)
+            a.distance(b)
+            b.origin_to()
+        elif name == "ideal_endpoint_coords":
+            obj.ideal_endpoint_coords("poincare")
+        elif name == "geodesic":
+            obj.geodesic().ideal_basis_coords("klein")
+        elif name == "vertices:origin_to+distance":
+            v = obj.get_vertices()
+            v.origin_to()
+            v.distance(v)
+        elif name == "edges:ideal_endpoint_coords":
+            obj.get_edges().ideal_endpoint_coords("klein")
+        elif name == "projective_coords":
+            obj.projective_coords()
+        elif name == "affine_coords":
+            obj.affine_coords()
+        elif name == "edges:get_end_pair":
+            obj.get_edges().get_end_pair()
+        else:
+            raise ValueError(name)
+    return name
 
 
 def apply_step(run, rng, op, obj, model, step):
@@ -719,6 +852,33 @@ def apply_step(run, rng, op, obj, model, step):
         m2 = copy.copy(model)
         m2.prim = model.prim.reshape((-1,) + model.prim.shape[model.prim.ndim - model.unit:])
         return new, m2, "ok"
+    if op in ("flatten-unit", "flatten-aux"):
+        # flatten down to an explicit unit of k >= unit_ndims axes: the last
+        # k - unit_ndims composite axes are kept, the others merged.  Primary
+        # and derived data must be reshaped alike (seeded change C11-r3-2:
+        # derived data always flattened to its own rank)
+        rank = model.prim.ndim
+        if op == "flatten-aux":
+            if getattr(obj, "aux_ndims", 0) != model.unit:
+                return obj, model, "skip:flatten_to_aux on a class whose derived data has another rank"
+            k = model.unit
+            new = obj.flatten_to_aux()
+        else:
+            k = _state.get("unit_k") or int(rng.integers(model.unit, rank + 1))
+            k = max(model.unit, min(int(k), rank))
+            new = obj.flatten_to_unit(unit=k)
+        if isinstance(_state.get("history"), dict):
+            _state["history"].setdefault("units", []).append(k)
+        m2 = copy.copy(model)
+        m2.prim = model.prim.reshape((-1,) + model.prim.shape[rank - k:])
+        return new, m2, "ok"
+    if op == "query-normalising":
+        base = _state.get("nquery")
+        which = int(rng.integers(0, 60)) if base is None else base + step
+        name = normalising_query(obj, kind, which)
+        if isinstance(_state.get("history"), dict):
+            _state["history"].setdefault("queries", []).append(name)
+        return obj, model, "ok"
     if op == "index":
         nvert = model.prim.shape[-2] if "Polygon" in kind else 0
         if nvert >= 4 and rng.random() < 0.35:
@@ -756,7 +916,7 @@ def apply_step(run, rng, op, obj, model, step):
             return obj, model, "skip:unit object"
         key = int(rng.integers(0, shape[0]))
         sub = shape[1:]
-        raw = G.draw(rng, kind, n, sub, nv=model.prim.shape[-2] if "Polygon" in kind else None)
+        raw = draw_value(rng, kind, n, sub, nv=model.prim.shape[-2] if "Polygon" in kind else None)
         val_prim = G.primary(kind, raw)
         value = G.build(kind, raw)
         if op == "setitem-raw":
@@ -769,7 +929,7 @@ def apply_step(run, rng, op, obj, model, step):
         m2.prim[key] = val_prim
         return obj, m2, "ok"
     if op == "stack":
-        raw = G.draw(rng, kind, n, shape, nv=model.prim.shape[-2] if "Polygon" in kind else None)
+        raw = draw_value(rng, kind, n, shape, nv=model.prim.shape[-2] if "Polygon" in kind else None)
         other = G.build(kind, raw)
         first = bool(rng.integers(0, 2))
         new = cls([obj, other] if first else [other, obj])
@@ -781,7 +941,7 @@ def apply_step(run, rng, op, obj, model, step):
         return new, m2, "ok"
     if op == "combine":
         oshape = [(2,), (), (1, 2)][int(rng.integers(0, 3))]
-        raw = G.draw(rng, kind, n, oshape, nv=model.prim.shape[-2] if "Polygon" in kind else None)
+        raw = draw_value(rng, kind, n, oshape, nv=model.prim.shape[-2] if "Polygon" in kind else None)
         other = G.build(kind, raw)
         mon = run.monitor("history")
         try:
@@ -827,8 +987,8 @@ def apply_step(run, rng, op, obj, model, step):
 ROUTES = ["arrays", "objects", "stack-units", "class-copy"]
 
 
-def construct(rng, kind, n, shape, route):
-    raw = G.draw(rng, kind, n, shape)
+def construct(rng, kind, n, shape, route, lift=None):
+    raw = rescale_raw(rng, kind, G.draw(rng, kind, n, shape), lift)
     prim = G.primary(kind, raw)
     cls = G.class_of(kind)
     if route == "arrays":
@@ -926,6 +1086,112 @@ def wl_setitem_combine(run, rng, idx):
         else:
             run.note_class("targeted", kind, n, shape, which)
     _state["history"] = None
+
+
+def run_history(run, rng, kind, n, shape, route, ops, lift=None, note=()):
+    """construct, then the listed operations, with the full set of checks after
+    every step (and the relatives of the object while it is edited)."""
+    obj, raw, prim = construct(rng, kind, n, shape, route, lift=lift)
+    raw0 = G.copy_raw(raw)
+    model = Model(kind, n, prim)
+    done = []
+    if explicit_check(run, obj, model, -1, "construct:" + route):
+        relatives = []
+        for step, op in enumerate(ops):
+            prev = obj
+            obj, model, status = apply_step(run, rng, op, obj, model, step)
+            if status.startswith("skip"):
+                run.monitor("history").skip(status[5:])
+                continue
+            if status == "violation":
+                break
+            done.append(op)
+            if obj is not prev:
+                relatives = [] if op == "copy" else relatives + [prev]
+            if not explicit_check(run, obj, model, step, op):
+                break
+            relatives_check(run, relatives[-3:], step, op)
+    pm = run.monitor("query-purity")
+    for k in raw:
+        pm.require(np.array_equal(raw[k], raw0[k]), "query-purity/construction-array-changed",
+                   "the array %r handed to the constructor changed during the history" % k,
+                   _state["history"])
+    if done:
+        run.note_class(*(tuple(note) + (kind, n, shape, route, ",".join(sorted(set(done))))))
+    return done
+
+
+FU_SHAPES = {True: [(3,), (2, 3), (2, 1, 3), (3, 2)], False: [(2, 3), (2, 1, 3), (2, 2, 3), (3, 2)]}
+FU_PRE = ["reshape", "apply-composite", "stack", "class-copy", "setitem", "index", "astype64",
+          "deepcopy"]
+FU_POST = ["apply", "index", "query", "apply-composite", "setitem", "flatten-aux", "class-copy",
+           "combine", "flatten", "astype64", "apply-pairwise", "stack"]
+
+
+def wl_flatten_unit(run, rng, idx):
+    """flatten_to_unit(unit=k) for every explicit k from the class's unit rank up
+    to the rank of the primary array, on composites of rank >= 3, optionally
+    after other operations, followed by apply / index / item assignment / ...:
+    derived data keeps the composite axes of the primary data and its values
+    (seeded change C11-r3-2: an explicit unit only honoured for the primary
+    data of segments and tangent vectors)."""
+    kind = HKINDS[idx % len(HKINDS)]
+    shapes = FU_SHAPES["Polygon" in kind]
+    shape = shapes[(idx // 4) % len(shapes)]
+    unit = G.KINDS[kind][2]
+    rank = len(shape) + unit
+    k = unit + (idx // 16) % (rank - unit + 1)    # unit rank .. array rank
+    n = 2 + (idx // 7) % 3
+    npre = (idx // 64) % 3
+    pre = [FU_PRE[int(i)] for i in rng.integers(0, len(FU_PRE), size=npre)]
+    post = [FU_POST[(idx // 4 + idx // 48) % len(FU_POST)], "query"]
+    if idx % 3 == 0:
+        post.append(FU_POST[int(rng.integers(0, len(FU_POST)))])
+    ops = pre + ["flatten-unit"] + post
+    _state["history"] = {"kind": kind, "dimension": n, "shape": list(shape), "route": "objects",
+                         "ops": ops, "unit": k}
+    _state["unit_k"] = k
+    run.current_case = _state["history"]
+    try:
+        run_history(run, rng, kind, n, shape, "objects", ops, note=("flatten-unit", k))
+    finally:
+        _state["unit_k"] = None
+        _state["history"] = None
+
+
+LS_OPS = ["setitem", "index", "apply", "stack", "flatten", "combine", "class-copy", "astype64",
+          "reshape", "setitem-raw", "apply-composite", "deepcopy", "flatten-unit", "astype32"]
+
+
+def wl_lift_scales(run, rng, idx):
+    """the same geometric objects from tiny / huge / row-wise mixed projective
+    lifts, every construction route: derived data right at construction
+    (reference formula), a normalising query next (it must neither change what
+    the stored derived data represents -- write watch -- nor make it differ from
+    the recomputation -- invariant at the query's return), then operations whose
+    further operands come in the same scale class, with queries between them
+    (seeded change C11-r3-3: an absolute null-vector threshold in
+    utils.projection takes the base point of a small lift for a null vector)."""
+    kind = HKINDS[idx % len(HKINDS)]
+    lift = LIFTS[(idx // 4) % len(LIFTS)]
+    shape = [(), (3,), (2, 3), (1, 3)][(idx // 12) % 4]
+    route = ROUTES[(idx // 5) % len(ROUTES)]
+    n = 2 + (idx // 48) % 3
+    op1 = LS_OPS[(idx // 4 + idx // 12) % len(LS_OPS)]
+    op2 = LS_OPS[int(rng.integers(0, len(LS_OPS)))]
+    ops = ["query-normalising", op1, "query-normalising"] + \
+        ([op2, "query"] if idx % 2 else ["index", "query-normalising"])
+    _state["history"] = {"kind": kind, "dimension": n, "shape": list(shape), "route": route,
+                         "ops": ops, "lift": lift}
+    _state["lift"] = lift
+    _state["nquery"] = idx // 12          # (+ step): decorrelated from the lift class
+    run.current_case = _state["history"]
+    try:
+        run_history(run, rng, kind, n, shape, route, ops, lift=lift, note=("lift", lift))
+    finally:
+        _state["lift"] = None
+        _state.pop("nquery", None)
+        _state["history"] = None
 
 
 def wl_integer_primary(run, rng, idx):
@@ -1084,4 +1350,6 @@ WORKLOADS = [
     Workload("setitem-combine", wl_setitem_combine, quick=200, thorough=3000),
     Workload("queries", wl_queries, quick=190, thorough=2850),
     Workload("integer-primary", wl_integer_primary, quick=48, thorough=960),
+    Workload("flatten-unit", wl_flatten_unit, quick=80, thorough=1920),
+    Workload("lift-scales", wl_lift_scales, quick=72, thorough=2304),
 ]
